@@ -356,13 +356,16 @@ Ltac split_wf H :=
 Lemma new_stream_rv : Rv new_stream (0, 0).
 Proof. unfold Rv, new_stream, min_i64, max_i64; cbn. repeat split; try lia. constructor. Qed.
 
+Lemma l_frames_api l : forall g d, l_frames g (api_writes d l) = (g, []).
+Proof. induction l as [|x l IH]; intros g d; cbn [api_writes l_frames l_frame]; [reflexivity|]. rewrite IH. reflexivity. Qed.
+
 (* one step: handle (or processData) against the ledger *)
 Lemma handle_inv s g o s' r :
   op_wf o = true -> Inv s g -> handle s o = (s', r) ->
   exists g' cl, l_frames (l_op g o (code r) (frames r)) (frames r) = (g', cl) /\ ok2 cl = true /\ Inv s' g'.
 Proof.
   intros Hwf HI H. pose proof HI as (Hsq & Ho & Hor & HR).
-  destruct o as [id inc|v order|sid v|id|id L ie|id es L rst|id h d es|id rst| |a| |]; cbn [handle] in H.
+  destruct o as [id inc|v order|sid v|id|id L ie|id es L rst|id h d es|id rst| |a| | |lasts]; cbn [handle] in H.
   - (* window update *)
     cbn [op_wf] in Hwf. split_wf Hwf.
     destruct (id =? 0) eqn:E0.
@@ -474,6 +477,9 @@ Proof.
     rewrite Hop. eapply processData_inv; eauto.
   - (* closeConnection *)
     inversion H; subst; clear H. cbn. eexists _, []. auto.
+  - (* API writes: no wire frames *)
+    inversion H; subst; clear H. cbn [code frames ok_res l_op executed Z.eqb orb negb].
+    rewrite l_frames_api. eexists _, []. auto.
 Qed.
 
 Lemma init_inv sd : Inv (init sd) l_init.
@@ -591,7 +597,7 @@ Definition frame_ok (g : ledger) (f : frame) : Prop :=
 
 Lemma l_frame_ok g f : ok2 (snd (l_frame g f)) = true -> frame_ok g f.
 Proof.
-  destruct f as [id len es ok|id len es eh|id len eh|id| |a]; cbn [l_frame frame_ok]; try (intros; exact I).
+  destruct f as [id len es ok|id len es eh|id len eh|id| |a|wl wa]; cbn [l_frame frame_ok]; try (intros; exact I).
   - destruct (aget id (g_open g)) as [[incs sent]|] eqn:E; cbn [snd ok2 forallb]; intros H.
     + rewrite andb_true_r in H. apply andb_true_iff in H as [H1 H]. apply andb_true_iff in H as [H2 H3].
       apply andb_true_iff in H3 as [H3 H4]. apply Z.leb_le in H3, H4. split; [lia|].
@@ -1016,6 +1022,22 @@ Proof.
   congruence.
 Qed.
 
+Lemma b_frames_api l : forall st d, b_frames st (api_writes d l) = (st, []).
+Proof.
+  induction l as [|x l IH]; intros st d; cbn [api_writes b_frames]; [reflexivity|].
+  destruct st as [bl tr]. cbn [b_frame]. rewrite IH. reflexivity.
+Qed.
+Lemma api_ok_model l : forall d, api_ok d (api_writes d l) = true.
+Proof.
+  induction l as [|x l IH]; intros d; cbn [api_writes api_ok]; [reflexivity|].
+  rewrite IH. destruct d; reflexivity.
+Qed.
+Lemma api_clause_ok s o s' r : handle s o = (s', r) ->
+  ok2 (match o with OApi _ => [(12, api_ok false (frames r))] | _ => [] end) = true.
+Proof.
+  destruct o; try reflexivity. cbn [handle]. intros H. inversion H; subst. cbn. rewrite api_ok_model. reflexivity.
+Qed.
+
 Lemma handle_inv2 E s bl o s' r :
   op_wf2 o = true -> data_fresh E o = true -> Inv2 E s bl -> handle s o = (s', r) ->
   exists bl' tr cl, b_frames (b_op bl o (code r) (frames r), []) (frames r) = ((bl', tr), cl) /\ ok2 cl = true /\
@@ -1023,7 +1045,7 @@ Lemma handle_inv2 E s bl o s' r :
 Proof.
   intros Hwf2 Hfresh HI H. pose proof HI as [Hs HF].
   unfold op_wf2 in Hwf2. apply andb_true_iff in Hwf2 as [Hwf Hrst0].
-  destruct o as [id inc|v order|sid v|id|id L ie|id es L rst|id h d es|id rst| |a| |]; cbn [handle] in H;
+  destruct o as [id inc|v order|sid v|id|id L ie|id es L rst|id h d es|id rst| |a| | |lasts]; cbn [handle] in H;
     cbn [E_next].
   - (* window update *)
     cbn [op_wf] in Hwf. split_wf Hwf.
@@ -1148,7 +1170,12 @@ Proof.
   - assert (Hop : forall c f, b_op bl OProcess c f = bl) by (intros c f; unfold b_op; destruct (negb (executed c)); reflexivity).
     rewrite Hop. eapply processData_inv2; eauto.
   - inversion H; subst; clear H. cbn. eexists _, _, []. fin2. exact HI.
+  - inversion H; subst; clear H. cbn [code frames ok_res b_op executed Z.eqb orb negb].
+    rewrite b_frames_api. eexists _, _, []. fin2. exact HI.
 Qed.
+
+Lemma ok2_cons a m : ok2 (a :: m) = snd a && ok2 m.
+Proof. reflexivity. Qed.
 
 Lemma nda_step E o r : no_data_after_end E (o :: r) = true ->
   data_fresh E o = true /\ no_data_after_end (E_next E o) r = true.
@@ -1165,15 +1192,20 @@ Proof.
   apply nda_step in Hnd as [Hfr Hnd].
   cbn [run_from]. destruct dead.
   - cbn [map c02_from sobs_of]. unfold b_step. cbn [o_code o_frames o_strs code frames].
-    replace (b_op bl o 3 []) with bl by reflexivity. cbn [b_frames fst app map].
-    destruct HI as [Hs HF]. cbn [all_ok forallb snd]. rewrite (b_snap_ok _ _ _ HF). cbn [andb].
+    replace (b_op bl o 3 []) with bl by reflexivity. cbn [b_frames fst app].
+    destruct HI as [Hs HF]. rewrite all_ok_app, all_ok_map, ok2_cons. cbn [snd].
+    rewrite (b_snap_ok _ _ _ HF). cbn [andb].
+    replace (ok2 match o with OApi _ => [(12, api_ok false [])] | _ => [] end) with true by (destruct o; reflexivity).
+    cbn [andb].
     apply (IH s bl (E_next E o)); auto. eapply inv2_mono; [apply E_next_incl|]. split; assumption.
   - destruct (handle s o) as [s' r] eqn:Eh. cbn [map c02_from].
     destruct (handle_inv2 _ _ _ _ _ _ Hw Hfr HI Eh) as (bl' & tr & cl & Hl & Hok & HI').
     unfold b_step. replace (o_code (sobs_of (r, s'))) with (code r) by reflexivity.
     replace (o_frames (sobs_of (r, s'))) with (frames r) by reflexivity.
-    rewrite Hl. cbn [fst]. rewrite all_ok_app, all_ok_map, ok2_app, Hok.
+    rewrite Hl. cbn [fst]. rewrite all_ok_app, all_ok_map, !ok2_app, Hok.
     destruct HI' as [Hs' HF']. cbn [ok2 forallb snd sobs_of o_strs]. rewrite (b_snap_ok _ _ _ HF'). cbn [andb].
+    fold (ok2 (match o with OApi _ => [(12, api_ok false (frames r))] | _ => [] end)).
+    rewrite (api_clause_ok _ _ _ _ Eh). cbn [andb].
     apply (IH s' bl' (E_next E o)); auto. split; assumption.
 Qed.
 
@@ -1495,7 +1527,7 @@ Proof. induction l as [|k l IH]; intros s; cbn [fold_left]; [reflexivity|]. rewr
 Lemma handle_inv3 s o s' r : op_wf o = true -> Inv3 s -> handle s o = (s', r) -> Inv3 s'.
 Proof.
   intros Hwf HI H. pose proof HI as (Ho & Hnd & HK & Hact).
-  destruct o as [id inc|v order|sid v|id|id L ie|id es L rst|id h d es|id rst| |a| |]; cbn [handle] in H.
+  destruct o as [id inc|v order|sid v|id|id L ie|id es L rst|id h d es|id rst| |a| | |lasts]; cbn [handle] in H.
   - destruct (id =? 0); [inversion H; subst; apply mk_inv3; cbn; auto|].
     destruct (aget id (estd s)) as [str|] eqn:Eg; [|inversion H; subst; exact HI].
     pose proof (forall_K_get _ _ _ _ HK Eg) as [Hb Hw].
@@ -1576,6 +1608,7 @@ Proof.
   - destruct (side s =? 0); inversion H; subst; [apply mk_inv3; cbn; auto|exact HI].
   - inversion H; subst; exact HI.
   - eapply processData_inv3; eauto.
+  - inversion H; subst; exact HI.
   - inversion H; subst; exact HI.
 Qed.
 
